@@ -23,19 +23,15 @@ pub fn block_on<F: Future>(fut: F) -> Result<F::Output, &'static str> {
     let waker = Waker::from(cw.clone());
     let mut cx = Context::from_waker(&waker);
     let mut fut = std::pin::pin!(fut);
-    let mut idle = 0u32;
     loop {
         let before = cw.0.load(Ordering::SeqCst);
         match fut.as_mut().poll(&mut cx) {
             Poll::Ready(v) => return Ok(v),
             Poll::Pending => {
+                // strict: a future that returns Pending must have arranged its wake-up (here: woken the waker it was
+                // given, there being no reactor); polling it again "just in case" would hide a lost wake-up
                 if cw.0.load(Ordering::SeqCst) == before {
-                    idle += 1;
-                    if idle > 3 {
-                        return Err("future is Pending and nobody will wake it");
-                    }
-                } else {
-                    idle = 0
+                    return Err("future is Pending and nobody will wake it");
                 }
             }
         }
